@@ -157,7 +157,7 @@ class Ctx:
             return False
         n = len(self.violations)
         self.count("violations")
-        if n < 25:
+        if n < int(os.environ.get("VERIF_MAX_REPLAY", "25")):
             d = os.path.join(VERIF, "replay", self.pid)
             os.makedirs(d, exist_ok=True)
             path = os.path.join(d, "seed%d_%s_%d.json" % (self.seed, self.tier, n))
